@@ -31,6 +31,9 @@ CLASS = {'div0': 'DIVISION_BY_ZERO', 'div0f': 'DIVISION_BY_ZERO', 'ovf': 'INVALI
 ERRKIND = {'div0': 'div0', 'div0f': 'div0', 'ovf': 'overflow', 'sub': 'subscript', 'ill': 'illegal-call', 'data': 'out-of-data'}
 
 
+LIKE_ASSIGN = ('assign', 'store', 'strassign', 'ifl1', 'iflv', 'iflc', 'ifle', 'iflev')
+
+
 def wrap(e, depth, r, safe=False):
     forms = ['(3 + {e})', '(2 * ({e}))', 'ABS({e})', '(zone% + ({e}))', '(({e}) - zone%)', 'zid%(({e}))',
              # a FUNCTION runs (with a partial result pending) before the failing operation
@@ -67,7 +70,8 @@ def plan(r):
             kind = r.choice([k for k in KINDS if k not in used_once] or ['div0'])
         if mode == 'goto-resume':
             used_once.add(kind)          # the handler fixes the cause once; a second failure needs another cause
-        form = r.choice(['assign', 'print', 'call', 'store', 'strassign'] + (['if', 'for', 'select', 'elseif'] if mode == 'goto-resume' else []))
+        form = r.choice(['assign', 'print', 'call', 'store', 'strassign', 'ifl1', 'iflv', 'iflc', 'ifle', 'iflev'] +
+                        (['if', 'for', 'select', 'elseif'] if mode == 'goto-resume' else []))
         if kind == 'data':
             form = 'read'
         steps.append({'k': 'fail', 'kind': kind, 'form': form, 'tag': nt(), 'depth': r.randint(0, 3)})
@@ -96,6 +100,18 @@ def stmt_text(s, r):
     e = wrap(KINDS[kind]['n'], s['depth'], r, safe=(kind == 'ovf'))
     if form == 'assign':
         return f'zq = 7 + {e}: PRINT {t}&; zq'
+    # the failing assignment as the first statement of the THEN / ELSE part of a single-line IF (constant, CONST and variable
+    # conditions: constant ones are folded away at -O1/-O2), followed by another statement on the same line
+    if form == 'ifl1':
+        return f'IF 1 THEN zq = 7 + {e}: PRINT {t}&; zq'
+    if form == 'iflv':
+        return f'IF zone% THEN zq = 7 + {e}: PRINT {t}&; zq'
+    if form == 'iflc':
+        return f'IF zflagc THEN zq = 7 + {e}: PRINT {t}&; zq'
+    if form == 'ifle':
+        return f'IF 0 THEN PRINT 44003& ELSE zq = 7 + {e}: PRINT {t}&; zq'
+    if form == 'iflev':
+        return f'IF zone% = 2 THEN PRINT 44003& ELSE zq = 7 + {e}: PRINT {t}&; zq'
     if form == 'print':
         return f'PRINT {t}&; {e}'
     if form == 'call':
@@ -146,7 +162,7 @@ def build(pl, r):
                 cnt['resume'] += 1
                 if s['kind'] == 'data':
                     pass
-                elif s['form'] in ('assign', 'store', 'strassign'):
+                elif s['form'] in LIKE_ASSIGN:
                     exp.append(('tag', s['tag']))     # the PRINT after ':' still runs (with the old value)
             elif mode == 'goto-end':
                 exp.append(('handler', ek))
@@ -156,7 +172,7 @@ def build(pl, r):
                 exp.append(('handler', ek))
                 cnt['handler'] += 1
                 cnt['resume'] += 1
-                if s['kind'] != 'data' and s['form'] in ('assign', 'store', 'strassign'):
+                if s['kind'] != 'data' and s['form'] in LIKE_ASSIGN:
                     exp.append(('tag', s['tag']))
             elif mode == 'goto-resume':
                 if not fixed_all:
@@ -170,7 +186,7 @@ def build(pl, r):
     fixes = ': '.join(sorted({KINDS[k]['fix'] for k in KINDS}))
     # the handler is module-level code: it sees the main program's variables (zmainv&, zhits%) also when the error happened
     # inside a procedure, and the causes it repairs are SHARED there
-    lines = (['DIM SHARED zd%, zdf, zo%, zi%, zes$'] if place in ('sub', 'function') else []) + ['DIM zarr(3)', 'zone% = 1']
+    lines = (['DIM SHARED zd%, zdf, zo%, zi%, zes$'] if place in ('sub', 'function') else []) + ['CONST zflagc = 1', 'DIM zarr(3)', 'zone% = 1']
     lines += ['zmainv& = 41777', ': '.join(f'zfill{i} = {i}' for i in range(1, 13))] + inits
     handler = []
     hhead = ['zh: zhits% = zhits% + 1', 'PRINT 42001&; ERR; zmainv&; zhits%']
